@@ -6,10 +6,12 @@ import (
 	"io"
 	"log/slog"
 	"os"
+	"runtime"
 	"runtime/debug"
 	"runtime/pprof"
 	"time"
 
+	"verif.local/mc/mc"
 	"verif.local/mc/report"
 )
 
@@ -45,6 +47,19 @@ func main() {
 		if os.Getenv("VERIF_PPROF_SECS") != "" {
 			go func() { time.Sleep(12 * time.Second); pprof.StopCPUProfile(); os.Exit(0) }()
 		}
+	}
+	if hf := os.Getenv("VERIF_HEAPPROF"); hf != "" { // debugging aid: heap profile after 25 s, then exit
+		go func() {
+			time.Sleep(25 * time.Second)
+			runtime.GC()
+			f, _ := os.Create(hf)
+			pprof.WriteHeapProfile(f)
+			f.Close()
+			os.Exit(0)
+		}()
+	}
+	if !k.IsWorker() {
+		mc.StartDefaultMemoryGuard()
 	}
 	c.run(k)
 	k.Finish()
